@@ -72,7 +72,8 @@ def run(chk):
             fn, u1, u2, plan = st["fn"], st["u1"], st["u2"], st["plan"]
             two = plan[0] == "ok" and st["u2"] is not None
             binary = fn in ("add", "subtract", "maximum", "minimum", "hypot", "where", "append", "concatenate", "copysign", "nextafter", "less", "greater",
-                            "equal", "isclose", "allclose", "multiply", "dot", "cross", "outer", "divide", "true_divide")
+                            "equal", "isclose", "allclose", "multiply", "dot", "cross", "outer", "divide", "true_divide", "fmax", "fmin", "not_equal", "less_equal",
+                        "greater_equal", "array_equal", "inner", "vdot", "matmul", "kron")
             a, b = arr(lo_, hi_), (arr(lo_, hi_) if binary else None)
             x = Q(a.copy(), UNIT_TEXT[u1])
             y = Q(b.copy(), UNIT_TEXT[u2]) if binary else None
@@ -115,7 +116,7 @@ def run(chk):
             else:
                 want_u = ureg.Unit(UNIT_TEXT[out[1]] or "dimensionless") ** (F(out[2][0], out[2][1]))
                 o2 = plan[3]
-                if o2[0] == "unit" and binary and fn in ("multiply", "dot", "cross", "outer", "divide", "true_divide"):
+                if o2[0] == "unit" and binary:
                     want_u = want_u * ureg.Unit(UNIT_TEXT[o2[1]] or "dimensionless") ** (F(o2[2][0], o2[2][1]))
             ri, wi = dict((1 * r.units).unit_items()), dict((1 * want_u).unit_items())
             same_unit = (r.units == want_u) or (set(ri) == set(wi) and all(abs(float(ri[k_]) - float(wi[k_])) < 1e-6 for k_ in ri)) or (r.dimensionless and want_u.dimensionless and
